@@ -25,8 +25,7 @@ def check(ctx):
         b = ctx.body_with(f"{P}::select_new_da_height", f"{REL}::get_cost_and_transactions_number_for_block")
         wait = ctx.one_call(b, f"{REL}::wait_for_at_least_height")
         cost = ctx.one_call(b, f"{REL}::get_cost_and_transactions_number_for_block")
-        ctx.arg_origin("1.wait-for-parent-height", wait, 1, "upvar:previous_da_height", depth=1) if False else None
-        lt = ctx.cmp_tests(b, "Lt", lhs=f"call:{REL}::wait_for_at_least_height", rhs=["local:previous_da_height", "upvar:previous_da_height"], depth=1)
+        lt = ctx.cmp_tests(b, "Lt", lhs=f"call:{REL}::wait_for_at_least_height", rhs=ctx.pspec(F.unit(f"{P}::select_new_da_height"), 3), depth=1)
         ctx.test_leads_to_error("1.finalized-below-parent-rejects", b, lt, truth=True, detail="the DA height never decreases")
         ctx.guarded("1.loop-only-if-not-below", b, [cost], lt, truth=False)
         rng = ctx.one_call(b, "core::ops::range::RangeInclusive::new")
@@ -48,9 +47,16 @@ def check(ctx):
         ctx.expect_sites("1.limit-tests", [f"bb{sw.bb}" for sw, _ in over], exactly=2, what="`total_cost > gas_limit` and `total_transactions > transactions_limit`")
         o = Origins(b, 0)
         ws = []
+        # the running best height: the returned local that is initialised before the loop and re-assigned inside it
+        ret_locals = ctx.returned_locals(b)
+        in_loop = lambda bb: b.path([nxt.bb], [bb]) is not None and b.path([bb], [nxt.bb]) is not None
+        whole = {}
         for bb, j, s in b.stmts():
-            if bb in b.live and s["k"] == "assign" and b.local_name(s["pl"]["l"]) == "new_best" and not s["pl"].get("p") and b.path([nxt.bb], [bb]) is not None:
-                ws.append((bb, s))
+            if bb in b.live and s["k"] == "assign" and s["pl"]["l"] in ret_locals and s["pl"]["l"] != 0 and not s["pl"].get("p"):
+                whole.setdefault(s["pl"]["l"], []).append((bb, s))
+        for l, asg in whole.items():
+            if any(not in_loop(bb) for bb, _ in asg) and any(in_loop(bb) for bb, _ in asg):
+                ws += [(bb, s) for bb, s in asg if in_loop(bb)]
         ctx.expect_sites("1.new-best-assignment", [s.get("line") for _, s in ws], exactly=1, what="new_best = DaBlockHeight(height) inside the loop")
         ctx.guarded("1.advance-only-within-limits", b, [bb for bb, _ in ws], over, truth=False,
                     detail="the DA height advances to `height` only if the prefix up to it fits both limits")
